@@ -242,6 +242,17 @@ SPECS += [
          props=["C06", "C04"]),
 ]
 
+SPECS += [
+    # ---- sdk/output.py : what `Output.push_data` decides before the payload is prepared (C20 C06) -----------------
+    dict(lean="push_data_gate", path="sdk/output.py", qual="Output.push_data", group="Output",
+         slice={"start": "if self.has_targets and self._out_infos_exchanged < len(self._connected_inputs)",
+                "end": "if self.is_static"},
+         fields={"has_targets": "Bool", "_out_infos_exchanged": "Int", "_connected_inputs": "Dict[Obj,Opt[Time]]",
+                 "data": DATA, "is_static": "Bool"},
+         params={"time": "Opt[Time]"}, ret="Opt[Time]", slice_result=["time"], props=["C20"]),
+]
+SPECS[-1]["slice"]["result"] = ["time"]
+
 
 def by_group():
     g = {}
